@@ -25,6 +25,7 @@ mod c15;
 mod sm9api;
 mod c18;
 mod c19;
+mod c20;
 
 use engine::*;
 use std::sync::Arc;
@@ -52,6 +53,7 @@ fn registry(id: &str) -> Option<(&'static str, RunFn, ReplayFn)> {
         "C17" => ("C17", c17::run as RunFn, c17::replay as ReplayFn),
         "C18" => ("C18", c18::run as RunFn, c18::replay as ReplayFn),
         "C19" => ("C19", c19::run as RunFn, c19::replay as ReplayFn),
+        "C20" => ("C20", c20::run as RunFn, c20::replay as ReplayFn),
         _ => return None,
     })
 }
@@ -115,6 +117,13 @@ fn main() {
                 println!("REPLAY property={} site={} class={} detail={}", pid, w.site, w.class, w.detail);
             }
             std::process::exit(1);
+        }
+        Some("c20child") => {
+            let tier = if args.get(2).map(|s| s.as_str()) == Some("thorough") { Tier::Thorough } else { Tier::Quick };
+            let cseed: u64 = args.get(3).and_then(|s| s.parse().ok()).unwrap_or(0);
+            let start: usize = args.get(4).and_then(|s| s.parse().ok()).unwrap_or(0);
+            let end: usize = args.get(5).and_then(|s| s.parse().ok()).unwrap_or(0);
+            c20::child_main(tier, cseed, start, end);
         }
         Some("tool") => match args.get(2).map(|s| s.as_str()) {
             Some("search-c1") => c19::search_c1_scalars(),
